@@ -150,18 +150,18 @@ func propC06(w *World, r *Report) {
 			r.Check(n > 0, "X3", ru.name, "-", fmt.Sprintf("%d exit contexts", n))
 		}
 	}
-	checkThrottlePassThrough(w, r, runs)
+	checkThrottlePassThrough(w, r, runs, "X4")
 }
 
 // X4: provenance of the arguments handed to the wrapped recorder.
-func checkThrottlePassThrough(w *World, r *Report, runs *throttleRuns) {
+func checkThrottlePassThrough(w *World, r *Report, runs *throttleRuns, rule string) {
 	c := runs.model.C
 	e := newTermEnv(w)
 	e.useCtor(c.T, c.Ctor)
 	fieldsFromStart := map[string]string{} // field name -> which Start parameter it remembers
 	startFn := findMethod(w.Prog, c.T, "StartRecording")
 	if startFn == nil {
-		r.Unknown("X4", "StartRecording", "-", "method not found")
+		r.Unknown(rule, "StartRecording", "-", "method not found")
 		return
 	}
 	for _, b := range startFn.Blocks {
@@ -186,7 +186,7 @@ func checkThrottlePassThrough(w *World, r *Report, runs *throttleRuns) {
 			for i, a := range call.Call.Args {
 				p, isParam := a.(*ssa.Parameter)
 				okp := isParam && p == fn.Params[len(fn.Params)-len(call.Call.Args)+i]
-				r.Check(okp, "X4", fmt.Sprintf("wrapped StartRecording argument %d is the caller's argument %d", i, i), w.InstrPos(call), e.termOf(a).String())
+				r.Check(okp, rule, fmt.Sprintf("wrapped StartRecording argument %d is the caller's argument %d", i, i), w.InstrPos(call), e.termOf(a).String())
 			}
 			// callers of fn inside the component
 			for caller := range w.AllFuncs {
@@ -213,7 +213,7 @@ func checkThrottlePassThrough(w *World, r *Report, runs *throttleRuns) {
 									}
 								}
 							}
-							r.Check(okp, "X4", fmt.Sprintf("%s passes start argument %d unchanged to %s", caller.Name(), i, fn.Name()), w.InstrPos(cl), detail)
+							r.Check(okp, rule, fmt.Sprintf("%s passes start argument %d unchanged to %s", caller.Name(), i, fn.Name()), w.InstrPos(cl), detail)
 						}
 					}
 				}
@@ -221,17 +221,47 @@ func checkThrottlePassThrough(w *World, r *Report, runs *throttleRuns) {
 		case "WriteFrame":
 			a := call.Call.Args[0]
 			p, isParam := a.(*ssa.Parameter)
-			r.Check(isParam && fn.Name() == "WriteFrame" && p == fn.Params[1], "X4", "wrapped WriteFrame receives the client's frame", w.InstrPos(call), e.termOf(a).String())
+			r.Check(isParam && fn.Name() == "WriteFrame" && p == fn.Params[1], rule, "wrapped WriteFrame receives the client's frame", w.InstrPos(call), e.termOf(a).String())
 		case "StopRecording":
 			okc, bad, _, n := allCtx([]*Event{ev}, func(cx *Ctx) bool { return cx.Sinks[0] == 1 })
 			if okc {
-				r.Pass("X4", "wrapped StopRecording forwarded only while a wrapped file is open", w.InstrPos(call), fmt.Sprintf("%d contexts", n))
+				r.Pass(rule, "wrapped StopRecording forwarded only while a wrapped file is open", w.InstrPos(call), fmt.Sprintf("%d contexts", n))
 			} else {
-				r.Fail("X4", "wrapped StopRecording forwarded only while a wrapped file is open", w.InstrPos(call), describeCtx(bad), bad.Trace)
+				r.Fail(rule, "wrapped StopRecording forwarded only while a wrapped file is open", w.InstrPos(call), describeCtx(bad), bad.Trace)
 			}
 		}
 	}
-	r.Check(len(fieldsFromStart) >= 2, "X4", "StartRecording remembers background and threshold for the restart", "-", fmt.Sprint(fieldsFromStart))
+	r.Check(len(fieldsFromStart) >= 2, rule, "StartRecording remembers background and threshold for the restart", "-", fmt.Sprint(fieldsFromStart))
+	// ... on EVERY non-failing path (forwarded as well as suppressed start): a later mid-trigger restart
+	// must open the file with the background and threshold of this trigger
+	pe := newTermEnv(w)
+	paths, complete := enumPaths(pe, startFn, 64)
+	nOK := 0
+	okAll := complete
+	for _, p := range paths {
+		if p.Term(pe, p.Ret.Results[0]).String() != "nil" {
+			continue
+		}
+		nOK++
+		stored := map[string]bool{}
+		for _, in := range p.Instrs {
+			if st, ok := in.(*ssa.Store); ok {
+				if fa, ok := st.Addr.(*ssa.FieldAddr); ok && isPtrTo(fa.X.Type(), c.T) {
+					v := p.Term(pe, st.Val).String()
+					for i := 1; i < len(startFn.Params); i++ {
+						if v == pe.termOf(startFn.Params[i]).String() {
+							stored[v] = true
+						}
+					}
+				}
+			}
+		}
+		if len(stored) != len(startFn.Params)-1 {
+			okAll = false
+			r.Fail(rule, "StartRecording path ["+strings.Join(guardStrings(p.Conds), " ∧ ")+"] remembers both start arguments", w.InstrPos(p.Ret), "a successful StartRecording returns without remembering the trigger's background/threshold: a restart after a throttle cut would write stale or zero values into the new file", "")
+		}
+	}
+	r.Check(okAll && nOK >= 2, rule, "every non-failing StartRecording path remembers the trigger's background and threshold", w.Pos(startFn.Pos()), fmt.Sprintf("%d non-failing paths", nOK))
 	// Stop forwards whenever recording: exits of StopRecording entered with recording=true have stopped the wrapped recorder
 	var bad *Ctx
 	n := 0
@@ -244,9 +274,9 @@ func checkThrottlePassThrough(w *World, r *Report, runs *throttleRuns) {
 		}
 	}
 	if bad != nil {
-		r.Fail("X4", "StopRecording while recording closes the wrapped file", "-", describeCtx(bad), bad.Trace)
+		r.Fail(rule, "StopRecording while recording closes the wrapped file", "-", describeCtx(bad), bad.Trace)
 	} else {
-		r.Check(n > 0, "X4", "StopRecording while recording closes the wrapped file", "-", fmt.Sprintf("%d exit contexts", n))
+		r.Check(n > 0, rule, "StopRecording while recording closes the wrapped file", "-", fmt.Sprintf("%d exit contexts", n))
 	}
 }
 
